@@ -4,12 +4,12 @@ import json, os, re, shutil
 import vlib
 
 
-def run_netlocal(wd, seed, segments, steps, par=8, tag="nl"):
+def run_netlocal(wd, seed, segments, steps, par=8, tag="nl", race_rounds=600):
     vh = vlib.build_harness()
     trace = os.path.join(wd, tag + "_trace.ndjson")
     hooks = os.path.join(wd, tag + "_hooks.ndjson")
     res = vlib.harness_json(vh, ["netlocal", "-segments", str(segments), "-steps", str(steps), "-seed", str(seed),
-                                 "-par", str(par), "-trace", trace, "-hooktrace", hooks], wd, timeout=3000, name=tag)
+                                 "-par", str(par), "-race-rounds", str(race_rounds), "-trace", trace, "-hooktrace", hooks], wd, timeout=3000, name=tag)
     if res.get("inconclusive"):
         raise vlib.Inconclusive("netlocal harness: " + "; ".join(res["inconclusive"][:3]))
     lines = vlib.read_ndjson(trace)
